@@ -18,7 +18,7 @@
      ForceRef(s, w)        wcwidth.Force(s, w): TrimRef(s, w) padded with spaces; width exactly w
      TrimEachLineRef(s, w) wcwidth.TrimEachLine: every line (split at newline) trimmed
      RenderOK(W, H, ls)    a widget rendered into W >= 2 columns and H >= 1 rows produced the lines
-                           ls (each a sequence of cell widths): at most H lines, none wider than W.
+                           ls (the display width of each, = sum of its cells' widths): at most H lines, none wider than W.
 
    UNSPECIFIED
      WidthUnspecified(w)   w < 0 (wcwidth.Force panics there; no caller passes it)
@@ -72,12 +72,13 @@ TrimMaximal(s, w) ==
      /\ \A n \in 0..Len(s) : SumW(Prefix(s, n)) <= w => n <= Len(r)          \* no longer prefix fits
 TrimPrefixClosed(s, w) ==
   \* trimming a prefix, or trimming again to a smaller width, never yields anything but a prefix
-  /\ \A n \in 0..Len(s) : IsPrefix(TrimRef(Prefix(s, n), w), TrimRef(s, w))
-  /\ \A v \in {0, w \div 2, w - 1, w} \cap 0..w : TrimRef(TrimRef(s, w), v) = TrimRef(s, v)
-ForceExact(s, w) == SumW(ForceRef(s, w)) = w /\ IsPrefix(TrimRef(s, w), ForceRef(s, w))
+  LET r == TrimRef(s, w)
+  IN /\ \A n \in 0..Len(s) : IsPrefix(TrimRef(Prefix(s, n), w), r)
+     /\ \A v \in {0, w \div 2, w - 1, w} \cap 0..w : TrimRef(r, v) = TrimRef(s, v)
+ForceExact(s, w) == LET f == ForceRef(s, w) IN SumW(f) = w /\ IsPrefix(TrimRef(s, w), f)
 
 (* ---- rendering ---- *)
-\* ls: the rendered lines, each a sequence of cell widths
-RenderOK(W, H, ls) == Len(ls) <= H /\ \A i \in 1..Len(ls) : Sum(ls[i]) <= W
+\* ls: the display widths of the rendered lines
+RenderOK(W, H, ls) == Len(ls) <= H /\ \A i \in 1..Len(ls) : ls[i] <= W
 RenderWhy(W, H, ls) == IF Len(ls) > H THEN "height-exceeded" ELSE "width-exceeded"
 =============================================================================
